@@ -155,6 +155,52 @@ def tree_shas(repo, n):
     return warm, coldp, scratch
 
 
+def _refs(obj):
+    from dulwich.objects import Commit, Tree
+    if isinstance(obj, Tree):
+        return sorted({sha.decode() for _, _, sha in obj.iteritems()})
+    if isinstance(obj, Commit):
+        return sorted({obj.tree.decode()} | {p.decode() for p in obj.parents})
+    return []
+
+
+def object_sets(repo, n):
+    """The objects BazaarObjectStore generates revision by revision (parents first, parent trees available, cache filled
+    with what the earlier revisions produced -- what a push sends), and the blobs and trees of every revision converted
+    alone from nothing.  -> (emit [[{id, refs}]], full [[id]], commits [id])"""
+    from breezy.git.object_store import _tree_to_objects
+    from breezy.git.cache import DictBzrGitCache
+    from breezy.git.mapping import default_mapping, extract_unusual_modes
+    from dulwich.objects import Commit, Tree
+    emit, full, commits = [], [], []
+    st = fresh_store(repo)
+    with st.lock_read():
+        st.start_write_group()
+        try:
+            for r in range(1, n + 1):
+                rev = repo.get_revision(cc.revid(r))
+                tree = st.tree_cache.revision_tree(cc.revid(r))
+                updater = st._get_updater(rev)
+                objs = {}
+                for _path, obj in st._revision_to_objects(rev, tree, lossy=True, add_cache_entry=updater.add_object):
+                    objs[obj.id.decode()] = _refs(obj)
+                    if isinstance(obj, Commit):
+                        commits.append(obj.id.decode())
+                updater.finish()
+                emit.append([{"id": i, "refs": rf} for i, rf in sorted(objs.items())])
+                ids = set()
+                for _path, obj, _ in _tree_to_objects(repo.revision_tree(cc.revid(r)), [], DictBzrGitCache().idmap,
+                                                      extract_unusual_modes(rev), default_mapping.BZR_DUMMY_FILE):
+                    ids.add(obj.id.decode())
+                full.append(sorted(ids or {Tree().id.decode()}))
+        except BaseException:
+            st.abort_write_group()
+            raise
+        else:
+            st.commit_write_group()
+    return emit, full, commits
+
+
 def native_kind(row):
     """Python twin of the C35 clauses on a native row (for minimisation only)."""
     o = row["o"]
@@ -166,8 +212,18 @@ def native_kind(row):
         return "sha-error:%s@%s" % (s.get("exc"), s.get("site"))
     if s["warm"] != s["scratch"] or s["coldp"] != s["scratch"]:
         return "incremental"
+    seen = set()
+    for objs in s["emit"]:
+        seen |= {x["id"] for x in objs}
+        if any(not set(x["refs"]) <= seen for x in objs):
+            return "closure"
+    if len(s["emit"]) != len(s["full"]) or seen - set(s["commits"]) != {i for ids in s["full"] for i in ids}:
+        return "objects"
     if s["staged"] != s["oneshot"]:
         return "staged"
+    k = cc.py_failed(row["c"], o["rt2"], meta=False, tags=False)
+    if k is not None:
+        return "rt2:" + k
     return None
 
 
@@ -176,9 +232,21 @@ def git_class(m, cls):
     object', 'kind or mode changed' are all the same event there -- the blob entry at a path differs from the first
     parent's.  When the failure needs the one-character name and the last revision changes what that path holds
     (a file or symlink before and after), that is the class."""
-    if not m or not cls or "+one-character-name" not in cls:
+    if not m or not cls:
         return cls
     n = len(m["P"])
+    if m["P"][n - 1]:                                          # an entry leaves (deleted / moved away) a directory that
+        base = {e["o"]: e for e in m["T"][m["P"][n - 1][0] - 1]}   # is renamed in the same revision
+        cur = {e["o"]: e for e in m["T"][n - 1]}
+        for o, d in cur.items():
+            b = base.get(o)
+            if b and b["k"] == d["k"] == "directory" and b["p"] != d["p"]:
+                for o2, e in base.items():
+                    if o2 != o and e["p"][:len(b["p"])] == b["p"] and \
+                            (o2 not in cur or cur[o2]["p"][:len(d["p"])] != d["p"]):
+                        return "entry-leaves-renamed-directory" + ("+merge" if len(m["P"][n - 1]) > 1 else "")
+    if "+one-character-name" not in cls:
+        return cls
     if m["P"][n - 1]:
         base = {tuple(e["p"]): e for e in m["T"][m["P"][n - 1][0] - 1]}
         cur = {tuple(e["p"]): e for e in m["T"][n - 1]}
@@ -222,12 +290,14 @@ def native_once(ctx, h, idx, root, names):
     work = tempfile.mkdtemp(prefix="c35-", dir=root)
     b = cc.materialise(ctx, h, os.path.join(work, "src"))
     repo = b.repository
-    o = {"rt": None, "sha": None, "git": {"ok": False, "T": []}, "ref": [ref_tree_sha(t) for t in h["T"]]}
+    o = {"rt": None, "rt2": None, "sha": None, "git": {"ok": False, "T": []}, "ref": [ref_tree_sha(t) for t in h["T"]]}
     diag = {}
     # ---- IncrementalEqualsScratch, object-store level
-    sha = {"ok": True, "warm": [], "coldp": [], "scratch": [], "staged": [], "oneshot": []}
+    sha = {"ok": True, "warm": [], "coldp": [], "scratch": [], "staged": [], "oneshot": [], "emit": [], "full": [],
+           "commits": []}
     try:
         sha["warm"], sha["coldp"], sha["scratch"] = tree_shas(repo, n)
+        sha["emit"], sha["full"], sha["commits"] = object_sets(repo, n)
     except Exception as e:  # noqa
         sha.update(cc.failure(e))
     # ---- push native -> git (what `brz push --lossy` / `brz dpush` do), one shot
@@ -248,20 +318,50 @@ def native_once(ctx, h, idx, root, names):
             sha["oneshot"] = [c.decode() for c in commits]
         except Exception as e:  # noqa
             o["rt"] = dict(cc.failure(e), stage="push")
-        # ---- staged: an older revision first, then the tip, into a second repository (warm persistent cache)
+            o["rt2"] = dict(o["rt"])
+        # ---- in two rounds: first what a parent of the tip reaches, then the rest -- pushed into a second git
+        # repository (warm persistent cache) and, after each push, fetched into one and the same native repository by
+        # freshly opened objects (another session): in round 2 one parent of a merge is already there
         if commits is not None:
+            gpath2 = None
             try:
                 b2 = cc.materialise(ctx, h, os.path.join(work, "src2"))
-                _, gb2 = new_git(work, "two.git")
-                first = h["P"][h["tip"] - 1][0] if h["P"][h["tip"] - 1] else h["tip"]
-                m1 = b2.push(gb2, lossy=True, stop_revision=cc.revid(first)).revidmap
-                m2 = b2.push(gb2, lossy=True).revidmap
-                m1.update(m2)
-                sha["staged"] = [m1[cc.revid(r)][0].decode() for r in range(1, n + 1)]
+                gpath2, gb2 = new_git(work, "two.git")
+                ps = h["P"][h["tip"] - 1]
+                sit = cc.situations(h)                         # the parent that is already there when the tip arrives:
+                left = ("tipmerge-left" in sit) if ("tipmerge-left" in sit) != ("tipmerge-right" in sit) else idx % 2 == 0
+                cut = (ps[0] if left else ps[-1]) if ps else h["tip"]
+                m1 = b2.push(gb2, lossy=True, stop_revision=cc.revid(cut)).revidmap
             except Exception as e:  # noqa
+                gpath2 = None
                 if sha["ok"]:
                     sha.update(cc.failure(e))
-                diag["staged"] = cc.failure(e)
+                o["rt2"] = dict(cc.failure(e), stage="push2")
+            if gpath2 is not None:
+                try:                                           # round 1 into a fresh native repository
+                    cc.new_branch(os.path.join(work, "back2")).pull(B.Branch.open(gpath2))
+                except Exception as e:  # noqa
+                    o["rt2"] = dict(cc.failure(e), stage="fetch2")
+                try:
+                    m2 = B.Branch.open(os.path.join(work, "src2")).push(B.Branch.open(gpath2), lossy=True).revidmap
+                    m1.update(m2)
+                    sha["staged"] = [m1[cc.revid(r)][0].decode() for r in range(1, n + 1)]
+                except Exception as e:  # noqa
+                    if sha["ok"]:
+                        sha.update(cc.failure(e))
+                    o["rt2"] = o["rt2"] or dict(cc.failure(e), stage="push2")
+                if o["rt2"] is None:
+                    try:                                       # round 2, freshly opened objects
+                        nb2, gbr2 = B.Branch.open(os.path.join(work, "back2")), B.Branch.open(gpath2)
+                        if idx % 4 < 2:
+                            nb2.pull(gbr2)
+                            tip2 = nb2.last_revision()
+                        else:
+                            tip2 = gbr2.last_revision()
+                            nb2.repository.fetch(gbr2.repository, revision_id=tip2)
+                        o["rt2"] = cc.observe(nb2.repository, tip2, {})
+                    except Exception as e:  # noqa
+                        o["rt2"] = dict(cc.failure(e), stage="fetch2")
         o["sha"] = sha
         # ---- what the git repository holds (conformance; also closes over the pushed objects)
         if commits is not None:
@@ -401,6 +501,11 @@ def git_once(ctx, h, idx, root, names):
     return {"kind": "git", "c": h, "o": o, "idx": idx}
 
 
+# classes every run must replay (channel_common.features / situations); the sample is stratified by all classes
+REQUIRED = ("merge", "emptydir", "symlink", "exec", "rename", "dirrename", "kindchange", "chmod", "delete", "moveout",
+            "diremptied", "tipmerge-left", "tipmerge-right", "roots", "pointless")
+
+
 def replay_chunk(sub, chunk):
     root = cc.scratch_root() or sub.workdir
     rows = []
@@ -416,7 +521,8 @@ def run(ctx):
     cc.preload()
     cc.quiet()
     q = ctx.quick
-    hs = cc.universe(ctx, nsmall=25 if q else 300, nlarge=45 if q else 1300, max_revs=4 if q else 5)
+    hs = cc.universe_stratified(ctx, REQUIRED, npool_large=260 if q else 3000, npool_dirs=160 if q else 1500,
+                                per_stratum=4 if q else 50, quota=95 if q else 1500, max_revs=4 if q else 5)
     items = []
     for i, h in enumerate(hs):
         items.append((i, "native", h))
@@ -465,7 +571,11 @@ def run(ctx):
             rt, s = o["rt"], o["sha"]
             if {"shape", "trees"} & set(failed):
                 c = cls if kind.startswith("rt:") else coarse
-                if not rt["ok"]:
+                if not rt["ok"] and not o["git"]["ok"] and o["git"].get("exc") == "KeyError":
+                    ctx.violation("roundtrip:push-incomplete:%s" % c,
+                                  "the pushed git repository misses an object (%s), fetching it back fails with %s: %s (%s)" % (
+                                      o["git"].get("emsg"), rt["exc"], rt.get("emsg"), where), rep)
+                elif not rt["ok"]:
                     gitside = "gitside-ok" if o["git"]["ok"] and "gitside" not in drifts else "gitside-bad"
                     ctx.violation("roundtrip:%s:%s@%s:%s:%s" % (rt.get("stage"), rt["exc"], rt["site"], c, gitside),
                                   "push to git and fetch back fails at %s with %s: %s (%s)" % (
@@ -496,6 +606,33 @@ def run(ctx):
                 elif rt["ok"] or rt.get("stage") != "push":
                     ctx.violation("staged:%s@%s:%s" % (s["exc"], s["site"], c), "staged push fails: %s %s (%s)" % (
                         s["exc"], s.get("emsg"), where), rep)
+            if s["ok"] and {"closure", "objects"} & set(failed):
+                c = cls if kind in ("closure", "objects") or (kind.startswith("rt:") and not o["git"]["ok"]) else coarse
+                seen, missing = set(), []
+                for r, objs in enumerate(s["emit"], 1):
+                    seen |= {x["id"] for x in objs}
+                    missing += [(r, x["id"], sorted(set(x["refs"]) - seen)) for x in objs if not set(x["refs"]) <= seen]
+                allfull = {i for ids in s["full"] for i in ids}
+                ctx.violation("objects:%s:%s" % ("+".join(x for x in ("closure", "objects") if x in failed), c),
+                              "objects generated incrementally for the revisions (parents first, parent trees, warm cache) are "
+                              "not the objects of a from-scratch conversion: referenced but never emitted (revision, object, "
+                              "missing) %s; from-scratch objects never emitted %s; emitted but not from-scratch %s (%s)" % (
+                                  missing[:4], sorted(allfull - seen)[:4], sorted(seen - set(s["commits"]) - allfull)[:4], where), rep)
+            rt2 = o["rt2"]
+            if {"staged-shape", "staged-trees"} & set(failed) and not ({"shape", "trees"} & set(failed)) and \
+                    not (not s["ok"] and rt2.get("stage") == "push2"):
+                c = cls if kind.startswith("rt2:") else coarse
+                if not rt2["ok"]:
+                    ctx.violation("rounds:%s:%s@%s:%s" % (rt2.get("stage"), rt2["exc"], rt2["site"], c),
+                                  "push + fetch back in two rounds fails at %s with %s: %s (%s)" % (
+                                      rt2.get("stage"), rt2["exc"], rt2.get("emsg"), where), rep)
+                elif "staged-shape" in failed:
+                    ctx.violation("rounds:shape:%s" % c, "revision graph after a round trip in two rounds is %s, source graph is "
+                                  "%s (%s)" % (rt2["P"], h["P"], where), rep)
+                else:
+                    _, desc = cc.tree_signature(h, rt2)
+                    ctx.violation("rounds:trees:%s" % c, "tree after push + fetch back in two rounds (a parent of the tip first) "
+                                  "differs while a single round is right: %s (%s)" % (desc, where), rep)
             for d in drifts:
                 if d == "gitside" and not rt["ok"]:
                     continue                                   # already part of the violation's signature
